@@ -35,7 +35,7 @@ func init() {
 	register(&c13{base{
 		id:          "C13",
 		level:       lvlFaultEnum,
-		rule:        "for seeded small sets (PAR2: 2-3 files, 3-5 blocks; PAR1: 3 files, 3 volumes) and EACH file of the set (index, every recovery/parity volume, every data file) the following fault families are enumerated: truncation at every packet boundary, every header-field boundary, offset 0 and sampled payload offsets; a flip of every bit of every header field (incl. the PAR2 length field outside the packet MD5 and the PAR1 fields before 0x20) and seeded payload bits; garbage overwrite and emptying; deletion of every subset of the set's files; crash points: the actual write sequence of Create is recorded (also: a re-Create over an OLDER archive of the same recovery set ID, interrupted after every prefix, with data damage that forces the stale blocks into use) through the file-system seam and every prefix of it is materialised with the last file torn at every packet boundary, at 0 bytes and at sampled inner offsets. After each fault the real Verify and Repair run in a resource-capped child: they must return normally; a Verify result must not claim more usable slices/files than a brute-force finder locates in the bytes on disk, nor more recovery blocks/volumes than the reference reader finds intact, nor 'no repair needed' unless every file is identical; Repair may only create or change protected files and only to their exact original bytes. A key is (format, family, target file, fault coordinate). Every judged state is additionally repaired with the double check on a copy of the directory (every state Verify accepts, every eighth it refuses). Family subsets also turns each protected file into a dangling symbolic link into a deleted directory",
+		rule:        "for seeded small sets (PAR2: 2-3 files, 3-5 blocks; PAR1: 3 files, 3 volumes) and EACH file of the set (index, every recovery/parity volume, every data file) the following fault families are enumerated: truncation at every packet boundary, every header-field boundary, offset 0 and sampled payload offsets; a flip of every bit of every header field (incl. the PAR2 length field outside the packet MD5 and the PAR1 fields before 0x20) and seeded payload bits; garbage overwrite and emptying; deletion of every subset of the set's files; crash points: the actual write sequence of Create is recorded (also: a re-Create over an OLDER archive of the same recovery set ID, interrupted after every prefix, with data damage that forces the stale blocks into use) through the file-system seam and every prefix of it is materialised with the last file torn at every packet boundary, at 0 bytes and at sampled inner offsets. After each fault the real Verify and Repair run in a resource-capped child: they must return normally; a Verify result must not claim more usable slices/files than a brute-force finder locates in the bytes on disk, nor more recovery blocks/volumes than the reference reader finds intact, nor 'no repair needed' unless every file is identical; Repair may only create or change protected files and only to their exact original bytes. A key is (format, family, target file, fault coordinate). Every judged state is additionally repaired with the double check on a copy of the directory (every state Verify accepts, every eighth it refuses). Family subsets also turns each protected file into a dangling symbolic link into a deleted directory. Family subsets also drives ONE Decoder object through load / change of the directory / load again (counts must equal a fresh Verify) and through a failed write followed by a second Repair on the same object.",
 		assumptions: append([]string{"faults are single (one file damaged per case) except for the subset and crash-point families"}, commonAssumptions...),
 		opts:        core.WorkerOpts{CrashIsViolation: true, ASLimitMiB: 4096, WallSeconds: 2400},
 	}})
